@@ -237,10 +237,16 @@ func (ex *Exec) runConcurrent() {
 		i := ex.pc
 		ex.pc++
 		ex.curOp = i
-		ex.openWindow(nil)
+		// error faults (never crashes) may be attached to the writer's operations
+		if f := ex.plan.Ops[i].Fault; f != nil && f.Class == "err" {
+			ex.openWindow(f)
+		} else {
+			ex.openWindow(nil)
+		}
 		ex.doOp(ex.plan.Ops[i])
 		ex.stats.Ops++
 	}
+	ex.openWindow(nil)
 	c.writerDone = true
 	ex.sim.WaitUntil("wait-readers", func() bool { return c.readersEnd == c.readersUp })
 	if ex.stop() {
@@ -417,6 +423,14 @@ func (ex *Exec) checkHistory() {
 				if op.ErrStr != "" {
 					why = fmt.Sprintf("an entry that stayed in the log throughout the read was not returned: %s", op.ErrStr)
 				}
+			}
+		}
+		if op.Kind == "get" && op.Found && ex.failedIDs[model.IDOf(op.Log)] {
+			// C10: entries of a failed StoreLogs are not visible to readers in the
+			// running process - not even while the call is rolling back
+			ex.violate("failed-append-invisible", "reader-saw-failed-append", "reader %d GetLog(%d) [events %d..%d] returned an entry (id %x) of a StoreLogs call that failed", op.Client, op.Idx, op.Call, op.Ret, model.IDOf(op.Log))
+			if ex.stop() {
+				return
 			}
 		}
 		if !ok && op.Kind == "get" && op.Found {
